@@ -24,7 +24,39 @@ def tagged_counting(ctx, toks):
             out.append(Tok('id', 'taggedData_tag_counted', toks[i].ws)); i += 1; continue
         out.append(toks[i]); i += 1
     return out
-CL = ['NDSize', 'DataArray', 'DataView', 'Tag', 'Feature']
+def single_element_vectors(ctx, toks):
+    """vector<optional<pair>> ranges = positionToIndex({A}, {B}, {C}, match, D);  with single-element brace lists and only
+       ranges[0] used  ==  the scalar lookup:  opt_pair ranges0 = positionToIndex_pair1(A, B, C, match, D);  ranges[0] -> ranges0;
+       position[i] / extent[i] / units[i] / dimensions[i] are the region's scalar live-in parameters"""
+    SUBS = [(['position', '[', 'i', ']'], 'position_i'), (['extent', '[', 'i', ']'], 'extent_i'), (['units', '[', 'i', ']'], 'unit_i'),
+            (['dimensions', '[', 'i', ']'], 'dimension_i'), (['ranges', '[', '0', ']'], 'ranges0')]
+    out = []; i = 0
+    while i < len(toks):
+        for seq, name in SUBS:
+            if seq_at(toks, i, seq):
+                out.append(Tok('id', name, toks[i].ws)); i += len(seq); fire(ctx, 'region-live-in'); break
+        else:
+            out.append(toks[i]); i += 1
+    toks = out; out = []; i = 0
+    while i < len(toks):
+        if toks[i].t == 'vec_opt_pair' and toks[i + 1].t == 'ranges' and toks[i + 2].t == '=' and toks[i + 3].t == 'positionToIndex' and toks[i + 4].t == '(':
+            e = match_close(toks, i + 4)
+            from cxx2c import split_args
+            args = split_args(toks[i + 5:e])
+            new = []
+            for a in args:
+                if a and a[0].t == '{' and a[-1].t == '}': a = a[1:-1]
+                new.append(a)
+            out.extend(tokenize('%sopt_pair ranges0 = positionToIndex_pair1(' % toks[i].ws))
+            for k, a in enumerate(new):
+                if k: out.append(P(',', ''))
+                out.extend(a)
+            out.append(P(')', ''))
+            ctx.env['ranges0'] = ('opt_pair', False)
+            i = e + 1; fire(ctx, 'single-element-vector-call'); continue
+        out.append(toks[i]); i += 1
+    return out
+CL = ['NDSize', 'DataArray', 'DataView', 'Tag', 'Feature', 'nstring', 'Dimension']
 UNITS = {k: ND_UNITS[k] for k in ('NDSize_size', 'NDSize_at', 'NDSize_bool', 'NDSize_allocate', 'NDSize_fill', 'NDSize_ctor_fill')}
 UNITS.update({
     'Tag_getFeature': dict(file=T, locator=r'Feature\s+Tag::getFeature\s*\((?=\s*ndsize_t\s+index)', cls='Tag', cls_file=TH, classes=CL),
@@ -36,7 +68,13 @@ UNITS.update({
     'featureData_tag_index': dict(file=DA, locator=r'DataView\s+featureData\s*\((?=\s*const\s+Tag\s*&\s*tag\s*,\s*ndsize_t\s+feature_index)', classes=CL,
                                   calls={'featureData': 'featureData_tag'}),
 })
-EXTRA = ('int gh_views; size_t gh_view_count_rank, gh_view_offset_rank; ndsize_t gh_view_count_k, gh_view_offset_k; const ndsize_t *gh_view_extent_dims;\n'
+UNITS['tag_assemble_dim'] = dict(file=DA, locator=r'void\s+getOffsetAndCount\s*\((?=\s*const\s+Tag\s*&\s*tag)', classes=CL,
+    pre_rules=[single_element_vectors], calls={'positionToIndex': 'positionToIndex_scalar'},
+    region=dict(start=r'vector<optional<pair<ndsize_t,\s*ndsize_t>>>\s+ranges\s*=\s*positionToIndex\(', end=r'temp_count\[i\]\s*\+=\s*c;\s*\}',
+                params=[('NDSize &', 'temp_offset'), ('NDSize &', 'temp_count'), ('size_t', 'i'), ('double', 'position_i'), ('double', 'extent_i'),
+                        ('const std::string &', 'unit_i'), ('RangeMatch', 'match'), ('const Dimension &', 'dimension_i')]))
+EXTRA = ('opt_ndsize gh_ge; opt_pair gh_pair; double gh_pair_start, gh_pair_end; RangeMatch gh_pair_match; int gh_pair_calls;\n'
+         'int gh_views; size_t gh_view_count_rank, gh_view_offset_rank; ndsize_t gh_view_count_k, gh_view_offset_k; const ndsize_t *gh_view_extent_dims;\n'
          'int gh_tagged_calls, gh_backend_feature_gets, gh_backend_reference_gets; ndsize_t gh_backend_get_index;\n'
          )
 ACC = ['NDSize_size', 'NDSize_at', 'NDSize_bool', 'NDSize_allocate', 'NDSize_fill', 'NDSize_ctor_fill']
@@ -45,6 +83,8 @@ def job(fn, replace=(), **kw):
 JOBS = [job('Tag_getFeature', ['Tag_backend_getFeature']), job('Tag_getReference', ['Tag_backend_getReference']),
         job('taggedData_tag', ['getOffsetAndCount_tag', 'positionAndExtentInData', 'mk_DataView_3']),
         job('featureData_tag_index', ['Tag_getFeature', 'featureData_tag'])]
+JOBS.append(dict(name='tag_assemble_dim', bodies=['NDSize_size', 'NDSize_at', 'tag_assemble_dim'], enforce=['tag_assemble_dim'], replace=['positionToIndex_scalar'], extra_c=EXTRA,
+                 defines=['ND_FULL_ALLOC'], cbmc_flags=UNW, expect_kinds=['postcondition', 'precondition'], timeout=900))
 for j in rank_cases(job('featureData_tag', ['taggedData_tag', 'mk_DataView_3'], split=True, split_workers=3)):
     r = int(j['name'].split('rank=')[1].rstrip(']'))
     j['tiers'] = ('quick', 'thorough') if r <= 3 else ('thorough',)
